@@ -800,23 +800,6 @@ class SourceFinder(object):
                 )
                 continue
 
-            # allow amp to be 5% or (innerclip) sigma higher
-            # TODO: the 5% should depend on the beam sampling
-            # note: when innerclip is 400 this becomes rather stupid
-            if amp > 0:
-                amp_min, amp_max = (
-                    0.95 * min(outerclip * rmsimg[xo, yo], amp),
-                    amp * 1.05 + innerclip * rmsimg[xo, yo],
-                )
-            else:
-                amp_max, amp_min = (
-                    0.95 * max(-outerclip * rmsimg[xo, yo], amp),
-                    amp * 1.05 - innerclip * rmsimg[xo, yo],
-                )
-
-            if debug_on:
-                self.log.debug("a_min {0}, a_max {1}".format(amp_min, amp_max))
-
             a, b, pa = global_data.psfhelper.get_psf_pix2pix(
                 yo + offsets[0], xo + offsets[1]
             )
@@ -824,6 +807,27 @@ class SourceFinder(object):
                 self.log.debug(" Summit has invalid WCS/Beam - Skipping.")
                 continue
             pixbeam = Beam(a, b, pa)
+
+            # allow amp to be (innerclip) sigma higher than the brightest
+            # pixel, on top of the pixelisation loss: a source no smaller
+            # than the beam whose centre is up to half a pixel away from the
+            # brightest pixel in x and in y peaks up to 2**(2/b**2) higher
+            # (b = minor FWHM of the beam in pixels), and never less than 5%
+            # note: when innerclip is 400 this becomes rather stupid
+            sampling = max(1.05, 2.0 ** (2.0 / pixbeam.b ** 2))
+            if amp > 0:
+                amp_min, amp_max = (
+                    0.95 * min(outerclip * rmsimg[xo, yo], amp),
+                    amp * sampling + innerclip * rmsimg[xo, yo],
+                )
+            else:
+                amp_max, amp_min = (
+                    0.95 * max(-outerclip * rmsimg[xo, yo], amp),
+                    amp * sampling - innerclip * rmsimg[xo, yo],
+                )
+
+            if debug_on:
+                self.log.debug("a_min {0}, a_max {1}".format(amp_min, amp_max))
 
             # set a square limit based on the size of the pixbeam
             xo_lim = 0.5 * np.hypot(pixbeam.a, pixbeam.b)
